@@ -91,7 +91,7 @@ def gen_domain(t, feat=None, multi_agent=False):
     acts = {}
     # (actions and objects have separate name spaces: in multi-agent domains an action may be called like an agent)
     anames = t.shuffle(["a0", "a1", "a-2", "a_3", "aa", "a10", "nop-wait", "noop", "no-op"] + (
-        ["ag0", "ag1"] if multi_agent else []))
+        ["ag0", "ag1"] if multi_agent else ["nop"]))  # (single-agent domains may call an action of their own 'nop')
     for ai in range(1 + t.draw(f["max_actions"])):
         npar = t.draw(f["max_params"] + 1)
         if long_names:
@@ -263,6 +263,8 @@ def gen_conj(t, D, scope, f, top=False, depth=2):
                 inner = lits(sc, 1 + t.draw(2))  # (or ... (and a b) ...)
                 if inner:
                     sub.append(("and", inner))
+            elif t.draw(12) == 0:
+                sub.append(("and", []))  # an empty conjunction: an always-true member of the disjunction
             else:
                 sub += lits(sc, 1)
         return ("or", sub) if sub else None
